@@ -1,4 +1,4 @@
-from ..rules import r_key, r_codec, r_close, r_err
+from ..rules import r_key, r_codec, r_close, r_err, r_order
 
 
 def run(prog, rep):
@@ -21,3 +21,4 @@ def run(prog, rep):
     r_codec.run_datatype(prog, rep)
     r_close.run(prog, rep)
     r_err.run(prog, rep)
+    r_order.run_order(prog, rep)
